@@ -726,6 +726,10 @@ pub struct ConvCase {
     pub nthreads: u8,
     pub inmemory: bool,
     pub sched: Sched,
+    /// F10 in the converters: the multi-threaded path reads through SimRead and the n-th read/seek call after
+    /// opening (counted over all reopened per-task readers) fails once
+    #[serde(default)]
+    pub hard: Option<u32>,
 }
 
 pub fn gen_conv(rng: &mut Rng) -> ConvCase {
@@ -742,7 +746,7 @@ pub fn gen_conv(rng: &mut Rng) -> ConvCase {
     file.sched = Sched::Calm;
     file.sink = SinkFaults::default();
     file.read = ReadFaults::default();
-    ConvCase {
+    let mut cc = ConvCase {
         file,
         nthreads: rng.range(2, 16) as u8,
         inmemory: rng.chance(1, 2),
@@ -750,7 +754,12 @@ pub fn gen_conv(rng: &mut Rng) -> ConvCase {
             policy: rng.below(4) as u8,
             seed: rng.next_u64(),
         },
+        hard: None,
+    };
+    if rng.chance(1, 5) {
+        cc.hard = Some(rng.below(60) as u32);
     }
+    cc
 }
 
 pub fn run_conv(cc: &ConvCase) -> RunReport {
@@ -827,7 +836,39 @@ pub fn run_conv(cc: &ConvCase) -> RunReport {
     // multi-threaded path on the simulator's runtime
     let shared = sched::install(&cc.sched);
     install_sim_runtime();
+    let sim_stats: std::cell::RefCell<Option<Arc<std::sync::Mutex<crate::sink::ReadStats>>>> = std::cell::RefCell::new(None);
     let res = std::panic::catch_unwind(std::panic::AssertUnwindSafe(|| -> Result<(), String> {
+        if let Some(n) = cc.hard {
+            // the same conversion with the file behind SimRead and one hard read/seek error after opening
+            let rd = crate::sink::SimRead::new(Arc::new(out.image.clone()), &ReadFaults::default());
+            let stats = rd.stats.clone();
+            *sim_stats.borrow_mut() = Some(stats.clone());
+            let arm = move || stats.lock().unwrap_or_else(|e| e.into_inner()).arm = Some(n as u64);
+            return match cc.file.kind {
+                Kind::Wig => {
+                    let r = BigWigRead::open(rd).map_err(|e| e.to_string())?;
+                    arm();
+                    bigtools::utils::cli::bigwigtobedgraph::write_bg(
+                        r,
+                        std::fs::File::create(&multi).map_err(|e| e.to_string())?,
+                        cc.inmemory,
+                        cc.nthreads as usize,
+                    )
+                    .map_err(|e| e.to_string())
+                }
+                Kind::Bed => {
+                    let r = BigBedRead::open(rd).map_err(|e| e.to_string())?;
+                    arm();
+                    bigtools::utils::cli::bigbedtobed::write_bed(
+                        r,
+                        std::fs::File::create(&multi).map_err(|e| e.to_string())?,
+                        cc.inmemory,
+                        cc.nthreads as usize,
+                    )
+                    .map_err(|e| e.to_string())
+                }
+            };
+        }
         match cc.file.kind {
             Kind::Wig => {
                 let r = BigWigRead::open_file(&big).map_err(|e| e.to_string())?;
@@ -865,7 +906,20 @@ pub fn run_conv(cc: &ConvCase) -> RunReport {
         *st.probes.entry(k.to_string()).or_insert(0) += v;
     }
     *st.counters.entry("converter_runs".into()).or_insert(0) += 1;
+    let fired = sim_stats
+        .borrow()
+        .as_ref()
+        .map(|s| s.lock().unwrap_or_else(|e| e.into_inner()).hard_errors)
+        .unwrap_or(0);
+    if fired > 0 {
+        *st.faults.entry("F10_hard_read_error".into()).or_insert(0) += fired;
+    }
     let verdict = match res {
+        // the injected read error may make the conversion fail - it must not make it succeed with other text
+        Err(_) | Ok(Err(_)) if fired > 0 => {
+            *st.counters.entry("converter_failed_under_injected_read_error".into()).or_insert(0) += 1;
+            Verdict::Pass
+        }
         Err(p) => viol("converter-panic", panic_message(p)),
         Ok(Err(e)) => viol("converter-failed", format!("multi-threaded path: {}", e)),
         Ok(Ok(())) => {
@@ -897,6 +951,15 @@ pub fn run_conv(cc: &ConvCase) -> RunReport {
 
 pub fn shrink_conv(cc: &ConvCase) -> Vec<ConvCase> {
     let mut out = vec![];
+    if let Some(n) = cc.hard {
+        for m in [n / 2, n.saturating_sub(1)] {
+            if m != n {
+                let mut c = cc.clone();
+                c.hard = Some(m);
+                out.push(c);
+            }
+        }
+    }
     {
         let mut n = cc.clone();
         n.sched = Sched::Calm;
@@ -982,6 +1045,11 @@ pub struct MergeCase {
     /// the others through a list file
     #[serde(default)]
     pub via_list: u8,
+    /// tool mode with bigWig output: the tool's bigWig path (MergingValues + ChromGroupReadImpl + BigWigWrite, as
+    /// bigwigmerge composes them) over inputs behind SimRead, where the n-th read/seek call of input `.0` after
+    /// opening fails once (F10)
+    #[serde(default)]
+    pub read_fail: Option<(u8, u32)>,
 }
 
 fn exact_value(rng: &mut Rng) -> f32 {
@@ -1084,6 +1152,7 @@ pub fn gen_merge(rng: &mut Rng) -> MergeCase {
         mode,
         error_at,
         via_list: if rng.chance(1, 4) { 1 + rng.below(2) as u8 } else { 0 },
+        read_fail: if rng.chance(1, 5) { Some((rng.below(5) as u8, rng.below(40) as u32)) } else { None },
     }
 }
 
@@ -1354,6 +1423,7 @@ fn run_merge_inner(c: &MergeCase, st: &mut RunStats) -> Verdict {
         Err(e) => return Verdict::Skip(format!("HARNESS: tempdir: {}", e)),
     };
     let mut in_paths = vec![];
+    let mut images: Vec<Vec<u8>> = vec![];
     for (k, input) in c.inputs.iter().enumerate() {
         let pc = PipeCase {
             kind: Kind::Wig,
@@ -1382,6 +1452,7 @@ fn run_merge_inner(c: &MergeCase, st: &mut RunStats) -> Verdict {
             return Verdict::Skip("HARNESS: scratch write".into());
         }
         in_paths.push(p);
+        images.push(out.image);
     }
     let (fname, otype) = match c.mode.split_once(':') {
         Some((f, t)) => (f.to_string(), Some(t.to_string())),
@@ -1439,7 +1510,22 @@ fn run_merge_inner(c: &MergeCase, st: &mut RunStats) -> Verdict {
             want.insert(name.clone(), runs);
         }
     }
-    let r = bigtools::utils::cli::bigwigmerge::bigwigmerge(args).map_err(|e| e.to_string());
+    let is_bedgraph = otype.as_deref().map(|t| t.eq_ignore_ascii_case("bedgraph")).unwrap_or(fname.ends_with(".bedGraph"));
+    let r = match c.read_fail {
+        Some((which, nth)) if !is_bedgraph => {
+            let (r, fired) = merge_with_failing_input(c, &images, &outp, which as usize % images.len(), nth);
+            if fired > 0 {
+                *st.faults.entry("F10_hard_read_error".into()).or_insert(0) += fired;
+                if r.is_err() {
+                    // the injected read error may make the merge fail; it must not make it succeed with signal missing
+                    *st.counters.entry("merge_failed_under_injected_read_error".into()).or_insert(0) += 1;
+                    return Verdict::Pass;
+                }
+            }
+            r
+        }
+        _ => bigtools::utils::cli::bigwigmerge::bigwigmerge(args).map_err(|e| e.to_string()),
+    };
     if let Err(e) = r {
         if want.is_empty() {
             // nothing survives the threshold: refusing to write an empty file is acceptable
@@ -1447,7 +1533,6 @@ fn run_merge_inner(c: &MergeCase, st: &mut RunStats) -> Verdict {
         }
         return viol("merge-tool-failed", e);
     }
-    let is_bedgraph = otype.as_deref().map(|t| t.eq_ignore_ascii_case("bedgraph")).unwrap_or(fname.ends_with(".bedGraph"));
     let mut got: BTreeMap<String, Vec<(u32, u32, f32)>> = BTreeMap::new();
     if !outp.exists() {
         return viol(
@@ -1517,6 +1602,59 @@ fn run_merge_inner(c: &MergeCase, st: &mut RunStats) -> Verdict {
     Verdict::Pass
 }
 
+/// The bigWig output path of bigwigmerge, composed from its public pieces exactly as the tool composes them, with
+/// the inputs behind SimRead. Returns the write result (a panic counts as an error) and how often the fault fired.
+fn merge_with_failing_input(c: &MergeCase, images: &[Vec<u8>], outp: &Path, which: usize, nth: u32) -> (Result<(), String>, u64) {
+    use bigtools::utils::cli::bigwigmerge::{ChromGroupReadImpl, MergingValues, MergingValuesError};
+    use bigtools::utils::reopen::Reopen;
+    let mut readers = vec![];
+    let mut stats = vec![];
+    for img in images {
+        let rd = crate::sink::SimRead::new(Arc::new(img.clone()), &ReadFaults::default());
+        stats.push(rd.stats.clone());
+        match BigWigRead::open(rd) {
+            Ok(r) => readers.push(r),
+            Err(e) => return (Err(format!("open: {}", e)), 0),
+        }
+    }
+    let mut chrom_map = std::collections::HashMap::new();
+    let mut sizes: BTreeMap<String, u32> = BTreeMap::new();
+    for r in &readers {
+        for ci in r.chroms() {
+            chrom_map.insert(ci.name.clone(), ci.length);
+            sizes.insert(ci.name.clone(), ci.length);
+        }
+    }
+    stats[which].lock().unwrap_or_else(|e| e.into_inner()).arm = Some(nth as u64);
+    let (threshold, adjust, clip) = (c.threshold.unwrap_or(0.0), c.adjust, c.clip);
+    let iter = sizes.into_iter().map(move |(chrom, size)| {
+        let mut iters: Vec<Box<dyn Iterator<Item = Result<bigtools::Value, MergingValuesError>> + Send>> = vec![];
+        for r in &readers {
+            if !r.chroms().iter().any(|ci| ci.name == chrom) {
+                continue;
+            }
+            let r2 = r.reopen().map_err(MergingValuesError::IoError)?;
+            let it = r2.get_interval_move(&chrom, 0, size).map_err(MergingValuesError::BBIReadError)?;
+            iters.push(Box::new(it.map(|x| x.map_err(MergingValuesError::BBIReadError))));
+        }
+        Ok((chrom, size, MergingValues::new(iters, threshold, adjust, clip)))
+    });
+    let source = ChromGroupReadImpl { iter: Box::new(iter) };
+    let outb = match bigtools::BigWigWrite::create_file(outp, chrom_map) {
+        Ok(o) => o,
+        Err(e) => return (Err(format!("HARNESS: create: {}", e)), 0),
+    };
+    let res = std::panic::catch_unwind(std::panic::AssertUnwindSafe(|| {
+        let runtime = sched::current_thread_runtime();
+        outb.write(source, runtime).map_err(|e| e.to_string())
+    }));
+    let fired = stats[which].lock().unwrap_or_else(|e| e.into_inner()).hard_errors;
+    match res {
+        Ok(r) => (r, fired),
+        Err(p) => (Err(format!("panicked: {}", panic_message(p))), fired),
+    }
+}
+
 pub fn shrink_merge(c: &MergeCase) -> Vec<MergeCase> {
     let mut out = vec![];
     let mut push = |f: &dyn Fn(&mut MergeCase)| {
@@ -1530,6 +1668,7 @@ pub fn shrink_merge(c: &MergeCase) -> Vec<MergeCase> {
     push(&|n| n.adjust = None);
     push(&|n| n.threshold = None);
     push(&|n| n.via_list = 0);
+    push(&|n| n.read_fail = None);
     for k in 0..c.inputs.len() {
         if c.inputs.len() > 1 {
             push(&move |n| {
@@ -1650,7 +1789,7 @@ pub fn gen_avg(rng: &mut Rng) -> AvgCase {
             r.2 = r.2.min(r.1 + 3000);
         }
     }
-    AvgCase {
+    let mut ac = AvgCase {
         file,
         regions,
         namecol: rng.pick(&["default", "interval", "none", "4", "1", "2", "3"]).to_string(),
@@ -1667,7 +1806,11 @@ pub fn gen_avg(rng: &mut Rng) -> AvgCase {
         } else {
             ReadFaults::default()
         },
+    };
+    if ac.mode == "lib" && rng.chance(1, 3) {
+        ac.read.hard = Some((0, rng.below(40) as u32));
     }
+    ac
 }
 
 struct AvgWant {
@@ -1770,6 +1913,10 @@ fn run_avg_inner(c: &AvgCase, st: &mut RunStats) -> Verdict {
             Ok(b) => b.cached(),
             Err(e) => return viol("avg-wrong", format!("open: {}", e)),
         };
+        if let Some((_, n)) = c.read.hard {
+            // F10: the n-th read/seek call from here on fails once; a row may be an error, never a wrong number
+            stats.lock().unwrap_or_else(|e| e.into_inner()).arm = Some(n as u64);
+        }
         let name = match c.namecol.as_str() {
             "interval" => bigtools::utils::misc::Name::Interval,
             "none" => bigtools::utils::misc::Name::None,
@@ -1785,14 +1932,24 @@ fn run_avg_inner(c: &AvgCase, st: &mut RunStats) -> Verdict {
             if s.eintr_reads > 0 {
                 st.faults.insert("F4_eintr_read".into(), s.eintr_reads);
             }
+            if s.hard_errors > 0 {
+                st.faults.insert("F10_hard_read_error".into(), s.hard_errors);
+            }
         }
-        if rows.len() != c.regions.len() {
+        let hard_fired = stats.lock().unwrap_or_else(|e| e.into_inner()).hard_errors > 0;
+        let mut error_rows = 0;
+        if rows.len() != c.regions.len() && !(hard_fired && matches!(rows.last(), Some(Err(_)))) {
             return viol("avg-wrong", format!("{} rows for {} regions", rows.len(), c.regions.len()));
         }
         for (k, (row, (ci, s, e, n))) in rows.iter().zip(&c.regions).enumerate() {
             let ch = &c.file.chroms[*ci];
             let (gname, g) = match row {
                 Ok(x) => x,
+                Err(_) if hard_fired && error_rows == 0 => {
+                    error_rows += 1;
+                    *st.counters.entry("rows_failed_under_injected_read_error".into()).or_insert(0) += 1;
+                    continue;
+                }
                 Err(e) => return viol("avg-wrong", format!("row {}: {}", k, e)),
             };
             let w = avg_want(&ch.items, *s, *e);
